@@ -515,8 +515,9 @@ fn cmd_miri_gen(args: &[String]) {
         // a workload worth the Miri budget has at least two threads executing something, exercises
         // concatenation, and is small enough for an interpreter that is ~1000x slower than native code:
         // measure it natively first (same code path the Miri process will take)
-        let busy = w.threads.iter().filter(|t| t.ops.iter().any(|o| matches!(o, Op::Exec { .. }))).count();
-        if busy < 2 {
+        // every thread executes at least twice (so that executions of different threads overlap)
+        let busy = w.threads.iter().filter(|t| t.ops.iter().filter(|o| matches!(o, Op::Exec { .. })).count() >= 2).count();
+        if busy < 2 || busy < w.threads.len() {
             continue;
         }
         let probe = run_workload(
@@ -528,9 +529,13 @@ fn cmd_miri_gen(args: &[String]) {
             },
         );
         let steps = probe.stats.solo_steps + probe.stats.conc_steps;
-        let appends = probe.stats.probes.site_hits[3] + probe.stats.probes.site_hits[4];
+        let pr = &probe.stats.probes;
+        let appends = pr.site_hits[3] + pr.site_hits[4];
+        // the few executions Miri can afford must touch everything shared: function dispatch (registry),
+        // variable lookup, comprehension scopes, both kinds of concatenation
+        let rich = pr.site_hits[1] >= 12 && pr.site_hits[2] >= 20 && pr.comprehensions >= 4 && appends >= 4;
         let tries = index;
-        if tries < 400 && (probe.violation.is_some() || steps < 150 || steps > 1500 || appends == 0) {
+        if tries < 3000 && (probe.violation.is_some() || steps < 300 || steps > 2500 || !rich) {
             continue;
         }
         let path = format!("{}/m-{}-{}.json", dir, master, written);
